@@ -280,6 +280,15 @@ func isErrType(v reflect.Value) bool {
 
 func (fdef *reflectByField) set(v reflect.Value) error {
 	if fdef.f.Name != "" {
+		if ft := fdef.f.Type; v.IsValid() && !v.Type().AssignableTo(ft) {
+			// YANG int32 arrives as Go int, a leaf-list of int32 as []int32 and so on, the
+			// field may be declared with any other number type
+			converted, ok := convertNumbers(v, ft)
+			if !ok {
+				return fmt.Errorf("cannot set field %s of type %s for '%s' with a value of type %s", fdef.f.Name, ft, fdef.m.Ident(), v.Type())
+			}
+			v = converted
+		}
 		fdef.elem().FieldByIndex(fdef.f.Index).Set(v)
 		return nil
 	}
@@ -312,4 +321,33 @@ func (fdef *reflectByField) fieldType() reflect.Type {
 		return fdef.getter.Func.Type().Out(0)
 	}
 	return fdef.setter.Func.Type().In(0)
+}
+
+// convertNumbers converts between number types (and slices of them) when it does not
+// lose anything
+func convertNumbers(v reflect.Value, t reflect.Type) (reflect.Value, bool) {
+	var empty reflect.Value
+	isNum := func(k reflect.Kind) bool {
+		return k >= reflect.Int && k <= reflect.Float64 && k != reflect.Uintptr
+	}
+	switch {
+	case isNum(v.Kind()) && isNum(t.Kind()):
+		c := v.Convert(t)
+		// back again to see nothing was lost
+		if c.Convert(v.Type()).Interface() != v.Interface() {
+			return empty, false
+		}
+		return c, true
+	case v.Kind() == reflect.Slice && t.Kind() == reflect.Slice:
+		c := reflect.MakeSlice(t, v.Len(), v.Len())
+		for i := 0; i < v.Len(); i++ {
+			item, ok := convertNumbers(v.Index(i), t.Elem())
+			if !ok {
+				return empty, false
+			}
+			c.Index(i).Set(item)
+		}
+		return c, true
+	}
+	return empty, false
 }
